@@ -334,9 +334,18 @@ class CapsGen(viewgen.Gen):
         else:
             self.composite_site(s, msg, d, dp)
 
+    def header_site(self, msg, where, exprs, tname):
+        """the header of a message / the dimension of a group: a composite derived through get_header"""
+        d = self.types.get(tname)
+        if d is None or d["kind"] != "composite":
+            return
+        self.composite_site(Site(where + ".<header>", "composite", {h: "::sbepp::get_header(%s)" % R for h, R in exprs.items()}), msg, d, [tname])
+
     def level(self, msg, lv, path, site):
         self.receiver_ops(site, msg)
         base = next(iter(R for h, R in site.exprs.items() if h in ("self", "name")))
+        if site.recv == "message":
+            self.header_site(msg, site.where, {"name": base}, self.S.get("headerType") or "messageHeader")
         for f in lv.get("fields", []):
             self.stats["members"] += 1
             d, dp = self.resolve(self.field_enc(f), [f["type"]])
@@ -353,6 +362,7 @@ class CapsGen(viewgen.Gen):
             gs = Site("%s.%s" % (site.where, g["name"]), "group", ex)
             flat = not g.get("groups") and not g.get("data")
             self.receiver_ops(gs, msg, flat=flat)
+            self.header_site(msg, gs.where, {"name": ex["name"], "cursor": ex["cursor"]}, g.get("dimensionType") or "groupSizeEncoding")
             es = Site("%s.%s[]" % (site.where, g["name"]), "entry",
                       {"name": "(*%s.begin())" % ex["name"], "cursor": "(*%s.cursor_range($C).begin())" % ex["cursor"]})
             self.level(msg, g, path + [g["name"]], es)
